@@ -805,3 +805,32 @@ Proof. cbv zeta. repeat split; vm_compute; reflexivity. Qed.
 Print Assumptions C03_generated_link_is_model.
 Print Assumptions C03_generated_link_not_node.
 Print Assumptions C03_generated_link_frozen.
+
+(* the ValueError case of the generated link, in general (not only by computation): under the same correspondence (every element
+   a _Node that is a bare node or a non-frozen Model), the generated link raises ValueError IF AND ONLY IF some pair
+   (left element a, right element b) visited by the nested loops has a new edge (s in the outputs of a, r in the inputs of b)
+   joining two initialised nodes of different dimensions; in every other case it asks for a new Model
+   ([C03_generated_link_is_model]) *)
+Section GeneratedLinkNClash.
+Variable ord_n : nat -> list node -> list node.
+Variable ord_e : nat -> list edge -> list edge.
+Variables is_model is_frozen_model is_initialized is_node : node -> bool.
+Variables attr_nodes attr_input_nodes attr_output_nodes : node -> list node.
+Variable attr_edges : node -> list edge.
+Variable dim : Type.
+Variables output_dim input_dim : node -> dim.
+Variable dim_eqb : dim -> dim -> bool.
+Let gen_linkN := Gen_ops.GenOps.link ord_n ord_e is_model is_frozen_model is_initialized is_node attr_nodes attr_input_nodes
+  attr_output_nodes attr_edges dim output_dim input_dim dim_eqb.
+Let lrepr := C03_mrepr is_model is_frozen_model is_node attr_nodes attr_input_nodes attr_output_nodes attr_edges.
+Let clash := C03_dim_clash is_initialized dim output_dim input_dim dim_eqb.
+
+Theorem C03_generated_link_dim_clash (o1 o2 : PyColl4.operand) (name : unit) (ls rs : list value) :
+  Forall2 lrepr (PyColl4.opnd_flat o1) ls -> Forall2 lrepr (PyColl4.opnd_flat o2) rs ->
+  (gen_linkN o1 o2 name = PyColl4.Exc4 (PyColl4.Py PyColl.ValueError) <->
+   exists a b s r, In a ls /\ In b rs /\ In s (v_outs a) /\ In r (v_ins b) /\ clash (s, r) = true).
+Proof. exact (Gen_ops_eq.gen_link_dim_clash ord_n ord_e is_model is_frozen_model is_initialized is_node attr_nodes
+  attr_input_nodes attr_output_nodes attr_edges dim output_dim input_dim dim_eqb o1 o2 name ls rs). Qed.
+End GeneratedLinkNClash.
+
+Print Assumptions C03_generated_link_dim_clash.
